@@ -169,9 +169,13 @@ def body(chk, exe, scratch, proof_ok, detail):
                 here = [x for x in changed if int(x[0]) == i + 1]
                 objs = ", ".join("the %s object in slot %s" % (x[2].rstrip("!"), x[1]) for x in here if not x[2].endswith("!"))
                 broken = ", ".join("the %s object in slot %s" % (x[2].rstrip("!"), x[1]) for x in here if x[2].endswith("!"))
+                lostname = ", ".join("the %s object in slot %s" % (x[2][:-5], x[1]) for x in here if x[2].endswith("-name"))
+                if lostname:
+                    bad.append("call #%d of the scenario (`%s`): the IPC name of %s, which existed before the call, has been removed from the system although no handle of that name was freed" % (i + 1, line, lostname))
+                    objs = ", ".join("the %s object in slot %s" % (x[2], x[1]) for x in here if not x[2].endswith("!") and not x[2].endswith("-name"))
                 if objs:
                     bad.append("call #%d of the scenario (`%s`): %s, which existed before the call, does not read back as before it (contents compared through the public getters)" % (i + 1, line, objs))
-                if broken or not objs:
+                if broken or not (objs or lostname):
                     bad.append("call #%d of the scenario (`%s`): %s contradicts itself after the call (its count and its contents, or the result of the call and a look-up, disagree)" % (i + 1, line, broken or "the object the call works on"))
                 if sig is None:
                     sig = "%s@object-changed" % resfam.func_of(line.replace(" ", ","))
